@@ -191,3 +191,10 @@ def witnesses(chk):
         if r.get('rejected') != w:
             chk.counterexample(f'registration {c}: natively {"rejected" if r.get("rejected") else "accepted"}, statement says {"reject" if w else "accept"}', c, True, role='register:wire')
         if len(chk.samples) < 10: chk.samples.append({'registration': c, 'native': r})
+    # the same policy written in the arguments of the trait-based API macro: an undeclared tag is refused unless allow_other_tags is given
+    c = {'op': 'trait_tags'}
+    r = replay([c])[0]
+    chk.replayed += 1
+    want_t = {'closed_rogue_rejected': True, 'closed_rogue_stub_rejected': True, 'closed_declared_rejected': False, 'open_rogue_rejected': False}
+    if {k: r.get(k) for k in want_t} != want_t:
+        chk.counterexample(f'trait-based API with declared tags: native {r}, statement says {want_t}', c, True, role='register:trait-tags')
